@@ -462,6 +462,11 @@ def build_cxx_program(r, d):
     return line, chain
 
 
+def nonempty_fdes(el):
+    """number of FDEs of an output whose address range is not empty"""
+    return sum(1 for x in el.eh_frame() if x.get("pc_range", 0) > 0)
+
+
 def run(ctx):
     r = ctx.rng
     n_free = 24 if ctx.quick else 600
@@ -532,8 +537,9 @@ def run(ctx):
             f1 = {y.name for y in elf.symtab() if y.type == 2 and y.shndx != 0 and y.size}
             f2 = {y.name for y in le.symtab() if y.type == 2 and y.shndx != 0 and y.size}
             if lh and lh.get("entries") is not None and f1 == f2:
-                ctx.count("oracle-ld", "same-count" if lh["count"] == hdr["count"] else "different-count")
-                if lh["count"] != hdr["count"]:
+                # an FDE with an empty range (a zero-size function) describes no instruction: linkers differ on keeping it
+                ctx.count("oracle-ld", "same-count" if nonempty_fdes(le) == nonempty_fdes(elf) else "different-count")
+                if nonempty_fdes(le) != nonempty_fdes(elf):
                     ctx.cov["impl_oracle_failures"] += 1
                     keep = os.path.join(ctx.replay_dir(), f"c10-{i}")
                     shutil.copytree(d, keep, dirs_exist_ok=True)
@@ -549,8 +555,8 @@ def run(ctx):
                     lh = le.eh_frame_hdr()
                     f3 = {y.name for y in le.symtab() if y.type == 2 and y.shndx != 0 and y.size}
                     if lh and lh.get("entries") is not None and f1 == f3:
-                        ctx.count("oracle-lld", "same-count" if lh["count"] == hdr["count"] else "different-count")
-                        if lh["count"] != hdr["count"]:
+                        ctx.count("oracle-lld", "same-count" if nonempty_fdes(le) == nonempty_fdes(elf) else "different-count")
+                        if nonempty_fdes(le) != nonempty_fdes(elf):
                             ctx.cov["impl_oracle_failures"] += 1
                             keep = os.path.join(ctx.replay_dir(), f"c10-{i}")
                             shutil.copytree(d, keep, dirs_exist_ok=True)
